@@ -149,11 +149,25 @@ def exercise(ctx, prs, label, rng, budget):
         for obj, path in world.objs.get(kind, []):
             for p in plist:
                 todo.append((p, obj, path))
+    # the same property of the same object is assigned several times in a history (Length then float, None then a value,
+    # one enum member then another): a setter that is right on a fresh element may be wrong on the one it left behind
+    todo = todo + rng.sample(todo, len(todo) // 2)
     rng.shuffle(todo)
     # text setters replace paragraphs and runs (objects obtained earlier then describe detached elements): they come last
     todo = todo[:budget]
     todo = [t for t in todo if t[0].name != "text"] + [t for t in todo if t[0].name == "text"]
     for p, obj, path in todo:
+        # always work through a live proxy: an earlier structural assignment (has_legend = False, has_title = False, a text
+        # assignment) may have replaced the element the object found at discovery time stands for
+        try:
+            live = eval(path, {"prs": prs})  # noqa: S307 - paths are produced by harness/oplab.py
+        except Exception:  # noqa
+            ctx.count("object-gone")
+            continue
+        if live is None:
+            ctx.count("object-gone")
+            continue
+        obj = live
         sibs = [q.name for q in by_kind[p.kind] if q.name != p.name and q.name not in COUPLED.get((p.kind, p.name), set())
                 and not (p.name in ("text",) or q.name in ("text",))]
         r = rng.random()
@@ -178,6 +192,11 @@ def exercise(ctx, prs, label, rng, budget):
         ctx.case(key=(p.kind, p.name, cls, outcome))
         ctx.count(f"assign-{cls}-{outcome.split(':')[0]}")
         after_self = reading(obj, p.name)
+        if outcome.startswith("raised") and "(thinned" in label:
+            # a thinned deck is schema-valid but may be inconsistent (an axis whose crossing axis was removed): an
+            # undocumented exception there says nothing about the property
+            ctx.count("raised-on-inconsistent-thinned-input")
+            continue
         if outcome.startswith("raised"):
             ctx.fail(f"{p.kind}.{p.name}:{outcome}", f"{label} {path}.{p.name} = {v!r}: raised {outcome.split(':')[1]} (neither accepted nor rejected with TypeError / ValueError)", case)
             continue
@@ -214,7 +233,18 @@ def exercise(ctx, prs, label, rng, budget):
                 if p.name != "text":
                     refetch(ctx, prs, label, path, p.name, after_self, case)
         after = {n: reading(obj, n) for n in sibs}
+        PAIR = {"left": "top", "top": "left", "width": "height", "height": "width"}
         for n in sibs:
+            if p.kind == "shape" and PAIR.get(p.name) == n and before[n] == ("v", None) and after[n] == ("v", 0):
+                # a:off / a:ext hold both values of their pair: a shape that had NO offset (extents) gets one, the
+                # other coordinate necessarily becomes explicit; there is nothing inherited it could have kept
+                ctx.count("pair-created-from-nothing")
+                continue
+            if p.kind == "prs" and before[n] == ("v", None) and after[n][0] == "v" and after[n][1] in (9144000, 6858000):
+                # p:sldSz holds width and height together: on a presentation part that had none, the dimension that was
+                # not assigned gets the size an absent element means
+                ctx.count("pair-created-from-nothing")
+                continue
             if after[n] != before[n]:
                 # a placeholder that inherits its position: see the recorded finding
                 key = f"{p.kind}.{p.name}->{n}"
@@ -423,6 +453,26 @@ def stores(ctx):
     ctx.sample({"line": lines[-1], "impl": impl[-1]})
 
 
+def powerpoint_states(prs, rng):
+    """put some objects into states PowerPoint writes and python-pptx itself does not: -> number of injections"""
+    n = 0
+    for slide in prs.slides:
+        for sh in slide.shapes:
+            if not getattr(sh, "has_chart", False):
+                continue
+            ch = sh.chart
+            if ch.has_legend and rng.random() < 0.6:
+                # a legend dragged by hand: manual layout in EDGE mode
+                ch.legend.horz_offset = 0.1
+                ml = ch.legend._element.xpath("c:layout/c:manualLayout")
+                if ml:
+                    for e in ml[0]:
+                        if e.tag.endswith("}xMode"):
+                            e.set("val", "edge")
+                    n += 1
+    return n
+
+
 def correspond(ctx):
     from pptx import Presentation
 
@@ -432,8 +482,19 @@ def correspond(ctx):
     reps = 3 if ctx.quick else 20
     for r in range(reps):
         prs = build_deck()
-        rec = exercise(ctx, prs, f"generated#{r}", rng, 500 if ctx.quick else 1500)
-        reopen_check(ctx, prs, f"generated#{r}", rec)
+        label = f"generated#{r}"
+        if r % 3 == 1:
+            ctx.count("powerpoint-state-injections", powerpoint_states(prs, rng))
+            label += "(PowerPoint-style states)"
+        elif r % 3 == 2:
+            # optional elements / attributes removed at random (the part stays schema-valid): setters meet absent elements
+            from harness.props.c12 import thin
+            b = io.BytesIO(); prs.save(b)
+            td, n = thin(b.getvalue(), rng)
+            prs = Presentation(io.BytesIO(td))
+            label += f"(thinned, {n} removed)"
+        rec = exercise(ctx, prs, label, rng, 500 if ctx.quick else 1500)
+        reopen_check(ctx, prs, label, rec)
     decks = common.corpus_decks()
     if ctx.quick:
         decks = rng.sample(decks, 14)
